@@ -79,11 +79,11 @@ def _case(draw):
     klass = "regular"
     if zone < 3:
         klass = "zero_pairs"
-    elif zone < (7 if comp == "SAW" else 25):
+    elif zone < (6 if comp == "SAW" else 25):
         klass = "empty_row"
     n = draw(st.integers(2, 8))
     d = draw(st.integers(1, 2))
-    na = draw(st.integers(1, 4))
+    na = draw(st.sampled_from([1, 2, 2, 3, 3, 4]))
     K = draw(st.sampled_from([2, 3]))
     if draw(st.booleans()):
         val = st.integers(-2, 2).map(float)
@@ -252,6 +252,7 @@ def _case(draw):
         batch_size=batch_size, napp=napp, napp_array=napp_array,
         A_perf=a_perf,
         return_utilities=draw(st.integers(0, 3)) > 0,
+        as_list=draw(st.integers(0, 3)) == 0,
         seed=draw(st.integers(0, 2**31 - 1)),
         inner_seed=draw(st.integers(0, 2**31 - 1)),
     )
@@ -462,7 +463,7 @@ def run_case(case):
     bs = case["batch_size"]
     labels = [f"component={comp}",
               f"config={case['inner'] or case['clf']}",
-              f"cand={cm}", f"annot={am}", f"form={cm}/{am}",
+              f"form={cm}/{am}",
               f"klass={'zero_pairs' if n_avail == 0 else 'empty_row' if empty_row else 'regular'}",
               f"n_annotators={na}"]
 
@@ -482,8 +483,16 @@ def run_case(case):
 
     qs, kw = _build(case, classes)
     ret_u = bool(case["return_utilities"])
+    as_list = bool(case.get("as_list"))
+    labels.append(f"array_like={'list' if as_list else 'ndarray'}")
 
     def call():
+        if as_list:  # array-likes given as nested Python lists
+            return qs.query(
+                X.tolist(), y.tolist(),
+                candidates=None if cand_arg is None else cand_arg.tolist(),
+                annotators=None if annot_arg is None else annot_arg.tolist(),
+                batch_size=bs, return_utilities=ret_u, **kw)
         return qs.query(X.copy(), y.copy(), candidates=cand_arg,
                         annotators=annot_arg, batch_size=bs,
                         return_utilities=ret_u, **kw)
@@ -495,7 +504,6 @@ def run_case(case):
 
     # ---------------- zero available pairs: clean outcome
     if n_avail == 0:
-        labels.append("zero_pairs")
         if not ok:
             if isinstance(r, common.CallTimeout):
                 return Outcome([Violation(
